@@ -40,8 +40,9 @@ HEXCH = set(b"0123456789abcdefABCDEF")
 
 
 class Universe:
-    def __init__(self, name, nauthors=2, nabsent=1):
+    def __init__(self, name, nauthors=2, nabsent=1, tscale=1):
         self.name = name
+        self.tscale = tscale     # concrete created_at = ts * tscale (times beyond 32 bits with small integers in the spec)
         self.strs = [b""]
         self.sidx = {b"": 0}
         self.nauthors = nauthors
@@ -166,6 +167,7 @@ class Universe:
         pk_sidx = [self.s(pk.hex()) for pk in self.pubkeys]
         return dict(
             name=self.name,
+            tscale=self.tscale,
             s_p=s_p,
             pk_sidx=pk_sidx,
             n=n,
@@ -362,6 +364,8 @@ def u_c09c():
     u.add(A, 9999, 6, [], clen=13)                        # 9 newer: both stay
     u.add(A, 19999, 7, [], clen=14)                       # 10 last replaceable kind
     u.add(A, 19999, 8, [], clen=15)                       # 11 displaces 10
+    u.add(A, 10001, 0, [], clen=16)                       # 12 a holder dated at the epoch (created_at = 0)
+    u.add(A, 10001, 5, [], clen=17)                       # 13 displaces 12
     return u.finish()
 
 
@@ -397,6 +401,10 @@ def u_qv():
     u.add(B, 1, 16, [["tt", "abc"]], clen=11)                        # 7 two-letter name
     u.add(B, 1059, 17, [["p", ("pk", A)], ["t", L]], clen=12)        # 8 exactly 182 bytes
     u.add(A, 1, 18, [["t", "ab"], ["u", "abc"]], clen=13)            # 9 prefix value; same value under another letter
+    u.add(A, 3, 19, [["p", ("pk", B)], ["t", "abc"]], clen=14)       # 10 replaceable kind, two authors with the same tag values
+    u.add(B, 3, 20, [["p", ("pk", B)], ["t", "abc"]], clen=15)       # 11
+    u.add(A, 1, 21, [["E", "abc"], ["K", "1"]], clen=16)             # 12 upper-case single-letter tags (NIP-22 style)
+    u.add(B, 1, 22, [["E", "abc"], ["e", "abc"]], clen=17)           # 13 upper and lower case of one letter
     return u.finish()
 
 
@@ -425,6 +433,56 @@ def u_c14b():
     u.add(B, 1, 11, [], clen=6)                                                                  # 2 last target
     u.add(B, 5, 30, [["e", ("ev", 1)]] + [["e", ("ev", "absent")]] * 130 + [["e", ("ev", 2)]], clen=0)   # 3 the request (132 tags)
     u.add(A, 1, 12, [], clen=7)                                                                  # 4 bystander
+    return u.finish()
+
+
+def u_c10e():
+    """Events of other authors that REFER to a deleted event (reposts kind 6 / 16, a reaction, a reply): deleting one's own
+    event never removes them."""
+    u = Universe("c10e", nauthors=2, nabsent=1)
+    A, B = 1, 2
+    u.add(B, 1, 10, [], clen=5)                                        # 1 B's note
+    u.add(A, 6, 11, [["e", ("ev", 1)], ["p", ("pk", B)]], clen=6)      # 2 A reposts it
+    u.add(A, 16, 12, [["e", ("ev", 1)], ["k", "1"]], clen=7)           # 3 A's generic repost
+    u.add(A, 7, 13, [["e", ("ev", 1)]], clen=1)                        # 4 A's reaction
+    u.add(B, 5, 20, [["e", ("ev", 1)]], clen=0)                        # 5 B deletes its own note
+    u.add(B, 6, 14, [["e", ("ev", 1)]], clen=8)                        # 6 B's own repost of its note (not named by 5: stays as well)
+    u.add(A, 1, 15, [["e", ("ev", 1)], ["p", ("pk", B)]], clen=9)      # 7 A's reply
+    return u.finish()
+
+
+def u_c12y():
+    """Refused requests / events whose refusal comes AFTER something else of theirs looked removable: a gift wrap named by
+    its recipient together with a foreign note; a replaceable event whose id was marked deleted before it arrived."""
+    u = Universe("c12y", nauthors=3, nabsent=1)
+    R, O, T = 1, 2, 3
+    u.add(T, 1059, 10, [["p", ("pk", R)]], clen=5)                     # 1 gift wrap from a throw-away key to R
+    u.add(O, 1, 11, [], clen=6)                                        # 2 somebody else's note
+    u.add(R, 5, 20, [["e", ("ev", 1)], ["e", ("ev", 2)]], clen=0)      # 3 R names the wrap and the foreign note: refused
+    u.add(R, 5, 21, [["e", ("ev", 1)]], clen=0)                        # 4 R names the wrap alone
+    u.add(R, 10000, 10, [], clen=7)                                    # 5 P: the standing version
+    u.add(R, 10000, 20, [], clen=8)                                    # 6 N: a newer version ...
+    u.add(R, 5, 15, [["e", ("ev", 6)]], clen=0)                        # 7 ... whose id R deletes (possibly before N arrives)
+    u.add(R, 30000, 10, [["d", "x"]], clen=9)                          # 8 the same for an addressable kind
+    u.add(R, 30000, 20, [["d", "x"]], clen=10)                         # 9
+    u.add(R, 5, 16, [["e", ("ev", 9)]], clen=0)                        # 10
+    return u.finish()
+
+
+def u_c09t():
+    """Times beyond 32 bits of seconds (concrete created_at = 3 x the listed value, i.e. about 4.5e9): an index key or a
+    comparison that keeps only 32 bits of the time confuses newer and older."""
+    u = Universe("c09t", nauthors=1, nabsent=1, tscale=3)
+    A = 1
+    T = 1500000000
+    u.add(A, 10000, T + 10, [], clen=5)                                # 1 holder
+    u.add(A, 10000, T + 5, [], clen=6)                                 # 2 older: refused while 1 stands
+    u.add(A, 10000, T + 20, [], clen=7)                                # 3 newer: displaces
+    u.add(A, 30000, T + 10, [["d", "x"]], clen=8)                      # 4
+    u.add(A, 30000, T + 5, [["d", "x"]], clen=9)                       # 5
+    u.add(A, 5, T + 7, [["a", ("addr", 30000, A, "x")]], clen=0)       # 6 deletes x as of T+7: covers 5, not 4
+    u.add(A, 1, T + 1, [["t", "x"]], clen=10)                          # 7 regular
+    u.add(A, 10000, 100, [], clen=11)                                  # 8 an old 32-bit time at the same address
     return u.finish()
 
 
@@ -537,7 +595,7 @@ def u_exp(now):
     return u.finish()
 
 
-CURATED = dict(c14b=u_c14b, c10d=u_c10d, qv=u_qv, c09c=u_c09c, c10c=u_c10c, c16=u_c16, c11b=u_c11b, c12x=u_c12x, c09b=u_c09b, c10b=u_c10b, sz=u_sz, core=u_core, c09=u_c09, c10=u_c10, c11=u_c11, c18=u_c18, q=u_q)
+CURATED = dict(c09t=u_c09t, c10e=u_c10e, c12y=u_c12y, c14b=u_c14b, c10d=u_c10d, qv=u_qv, c09c=u_c09c, c10c=u_c10c, c16=u_c16, c11b=u_c11b, c12x=u_c12x, c09b=u_c09b, c10b=u_c10b, sz=u_sz, core=u_core, c09=u_c09, c10=u_c10, c11=u_c11, c18=u_c18, q=u_q)
 
 
 # ------------------------------------------------------------------------------------------------
